@@ -146,6 +146,8 @@ type c14Case struct {
 	Ops     []c14Op        `json:"ops"`
 	DelayNs int            `json:"delay_ns"`
 	Stops   []c14Stop      `json:"stops"`
+	// Share: payload bytes of transaction i = shared string number Share[i % len] (>= 0) or its own (-1 / empty list)
+	Share []int `json:"share,omitempty"`
 }
 
 func c14GenBeh(t *rapid.T) c14Beh {
@@ -186,6 +188,9 @@ func c14Gen(t *rapid.T) c14Case {
 		}
 		c.Subs = append(c.Subs, s)
 	}
+	if rapid.IntRange(0, 3).Draw(t, "sharing") > 0 { // three out of four histories reuse payload bytes across transactions
+		c.Share = rapid.SliceOfN(rapid.SampledFrom([]int{-1, -1, 0, 0, 1, 2}), 1, 7).Draw(t, "share")
+	}
 	nops := rapid.IntRange(1, 45).Draw(t, "nops")
 	for i := 0; i < nops; i++ {
 		k := rapid.SampledFrom([]string{"add", "add", "add", "add", "add", "addnp", "pay", "pay", "failwrite", "badpayload", "dup", "orphan"}).Draw(t, "k")
@@ -207,15 +212,25 @@ func c14Gen(t *rapid.T) c14Case {
 }
 
 // ---------------------------------------------------------------------------------------------------------------------
-// G-DAG with two payload types (the shared builder signs everything as application/did+json)
+// G-DAG with two payload types and shared payload bytes (the shared builder signs everything as application/did+json and
+// gives every transaction its own payload; jobs are keyed by transaction ref, so byte-identical payloads under different
+// transactions - a document changed and changed back - must each be delivered)
 
-func c14BuildOne(idx int, kindSel int, payloadType string, prevs []Transaction, res *vdKeyResolver) vdTx {
-	if payloadType == c14PTdid {
-		return vdBuildOne(idx, kindSel, prevs, res)
+// c14Payload returns the payload bytes of transaction idx: share[idx % len] >= 0 names one of a few shared byte strings,
+// otherwise (or without share list) the transaction has its own payload.
+func c14Payload(idx int, share []int) []byte {
+	if len(share) > 0 {
+		if p := share[idx%len(share)]; p >= 0 {
+			return []byte(fmt.Sprintf("verifshared-payload-%d", p%8))
+		}
 	}
 	payload := make([]byte, 12)
 	binary.BigEndian.PutUint32(payload, uint32(idx))
 	copy(payload[4:], "verifpay")
+	return payload
+}
+
+func c14BuildOne(idx int, kindSel int, payloadType string, payload []byte, prevs []Transaction, res *vdKeyResolver) vdTx {
 	var pal [][]byte
 	if kindSel == 2 {
 		pal = [][]byte{{1, 2, 3, byte(idx)}}
@@ -245,7 +260,7 @@ func c14BuildOne(idx int, kindSel int, payloadType string, prevs []Transaction, 
 	return vdTx{Tx: signed, Payload: payload, Kid: kid, Pub: pub, Attach: attach}
 }
 
-func c14Build(s dagshape.Shape, res *vdKeyResolver) []vdTx {
+func c14Build(s dagshape.Shape, share []int, res *vdKeyResolver) []vdTx {
 	nodes := s.Expand()
 	out := make([]vdTx, len(nodes))
 	for i, n := range nodes {
@@ -257,8 +272,11 @@ func c14Build(s dagshape.Shape, res *vdKeyResolver) []vdTx {
 		if i%3 == 1 {
 			pt = c14PTvc
 		}
-		out[i] = c14BuildOne(i, n.Kind%3, pt, prevs, res)
+		out[i] = c14BuildOne(i, n.Kind%3, pt, c14Payload(i, share), prevs, res)
 		out[i].Node = n
+		if out[i].Tx.Clock() != n.Clock {
+			panic(fmt.Sprintf("verif: clock mismatch node %d", i))
+		}
 	}
 	return out
 }
@@ -1173,6 +1191,28 @@ func (w *c14World) classify(p c14StopPlan, stopSeq int) {
 			x.Class("volatile-subscriber-called")
 		}
 	}
+	byPayload := map[hash.SHA256Hash]map[int]bool{}
+	for e := range w.adm {
+		if e.Type == PayloadEventType {
+			ph := w.txs[e.Tx].Tx.PayloadHash()
+			if byPayload[ph] == nil {
+				byPayload[ph] = map[int]bool{}
+			}
+			byPayload[ph][e.Tx] = true
+		}
+	}
+	for _, m := range byPayload {
+		if len(m) >= 2 {
+			x.Class("same-payload-admitted-under-several-transactions")
+			incs := map[int]bool{}
+			for tx := range m {
+				incs[w.adm[c14Ev{tx, PayloadEventType}].Inc] = true
+			}
+			if len(incs) >= 2 {
+				x.Class("same-payload-admitted-before-and-after-restart")
+			}
+		}
+	}
 	if w.c.Ops[p.Pos].K == "pay" {
 		x.Class("stop-at-payload-write")
 	}
@@ -1296,7 +1336,7 @@ func c14Run(x *h.Ctx, c c14Case) {
 		}
 	}
 	res := vdNewResolver()
-	txs := c14Build(c.Shape, res)
+	txs := c14Build(c.Shape, c.Share, res)
 	if len(txs) > 200 {
 		return
 	}
